@@ -8,16 +8,14 @@
    functions, the update mask and the writable-fields check make of an Update request given the
    stored value.  The theorems hold for EVERY rule, every message algebra, every read filter, every
    configured equivalence, every set of registered names and every request history.
-   [stack_stream]/[stack_unary] (Servers/Stack.v) compose the wrapper model of C13 and the router
+   [stack_stream] (Servers/Stack.v) composes the wrapper model of C13 and the router
    pump of C12 into what the client sees of what the handler sends.
    [trace_ok] (Servers/Trace.v) is the property evaluated on an observation, [C14_ok] its instance
    used by the correspondence (Servers/C14Judge.v). *)
 From SC Require Import Base.Prelude Msg.Msg Msg.Schema Msg.Path Masks.Get Masks.GetProofs
   Resource.Impl Resource.Pull Servers.Kinds Servers.GenericServer Servers.GenericServerProofs
   Servers.Trace Servers.TraceProofs Servers.Stack Servers.StackProofs
-  Servers.C14Judge Servers.C14JudgeProofs Gen.Servers.
-Local Open Scope string_scope.
-
+  Servers.TraceOf Servers.C14Judge Gen.Servers.
 Section C14.
   Variable M : Type.
   Variable m_eqb : M -> M -> bool.
@@ -116,6 +114,8 @@ Print Assumptions C14_every_effective_update_streamed.
 Print Assumptions C14_only_updates_are_streamed.
 Print Assumptions C14_rejected_update_noop.
 
+Local Open Scope string_scope.
+
 (* (2) instantiated: with the read filter of pkg/masks (Masks/Get.v) the masked Get IS the reference
    projection of the stored message, for every conformant message of every schema and every mask
    without empty segments -- valid or not (C06) *)
@@ -129,7 +129,7 @@ Theorem C14_masked_get_is_reference_projection :
   = PGet (inl (Some (project ps v))).
 Proof.
   intros sch ty live rule checked devs s name ps v Hr Hv Hc Hs Hn Hne.
-  simpl. rewrite Hr. unfold v_get. rewrite Hv. simpl.
+  cbn [step snd]. rewrite Hr. cbn [snd]. unfold v_get. rewrite Hv. cbn [option_map].
   rewrite (filter_is_projection sch ty v ps Hc Hs Hn Hne). reflexivity.
 Qed.
 Print Assumptions C14_masked_get_is_reference_projection.
@@ -149,24 +149,16 @@ Theorem C14_model_satisfies_property :
 Proof. exact model_satisfies_property. Qed.
 Print Assumptions C14_model_satisfies_property.
 
-(* ---- the stack: what the handler sends is what the client receives, in order, and a unary
-   response or status arrives unchanged (wrapper model of C13, router pump of C12) ---- *)
+(* ---- the stack: what the handler sends on a stream is what the client receives, in order, nothing
+   lost or added, as long as the reader keeps receiving (wrapper model and theorem of C13 applied
+   twice, router pump theorem of C12 in between); [trace_of_run] passes every stream through it ---- *)
 Theorem C14_stack_stream_transparent : forall ms, stack_stream ms = ms.
 Proof. exact stack_stream_transparent. Qed.
 Print Assumptions C14_stack_stream_transparent.
 
-Theorem C14_stack_unary_transparent : forall r, ret_ok r = true -> stack_unary r = Some r.
-Proof. exact stack_unary_transparent. Qed.
-Print Assumptions C14_stack_unary_transparent.
-
-(* ---- the correspondence judge: an observation that agrees with the model of a plain register
-   server satisfies C14_ok (so verdict 2 is impossible for them, and verdict 0 means both) ---- *)
-Theorem C14_judge_sound : forall server init evs streams,
-  variant_of server = VPlain -> C14_guard (KTrace server init evs streams) = true ->
-  trace_wf server init evs = true ->
-  agrees (KTrace server init evs streams) = true -> C14_ok (KTrace server init evs streams) = true.
-Proof. exact judge_sound. Qed.
-Print Assumptions C14_judge_sound.
+Theorem C14_through_stack_identity : forall (A : Type) (l : list A), through_stack l = l.
+Proof. exact @through_stack_id. Qed.
+Print Assumptions C14_through_stack_identity.
 
 (* ---- defects ---- *)
 (* fixed (4 handlers: count Update/Reset, emergency, air temperature memory device): the handler
